@@ -186,7 +186,19 @@ def _disp_contract(interp, self):
     if self.has('_sel'):
         sel = self.get('_sel')
         return STensor((st['T'], sel.L, 3), lambda t, q, c: D(to_z3(t), sel.pos(to_z3(q)), to_z3(c)), 'real')
-    return STensor((st['T'], st['N'], 3), lambda t, a, c: D(to_z3(t), to_z3(a), to_z3(c)), 'real')
+    # `displacements` hands out the trajectory's own coords array (no copy): every call returns the same array object, so that an in-place
+    # update through it is an update of the receiver
+    own = st.setdefault('own_displacements', {})
+    if id(self) not in own:
+        t_ = STensor((st['T'], st['N'], 3), lambda t, a, c: D(to_z3(t), to_z3(a), to_z3(c)), 'real')
+        own[id(self)] = (t_, t_.fn, self)
+    return own[id(self)][0]
+
+
+def _receiver_unchanged(st):
+    """frame: no array handed out by `displacements` was updated in place"""
+    own = st.get('own_displacements', {})
+    return [('the receiver\'s own coordinate array is not updated in place', z3.BoolVal(all(t_.fn is fn0 for t_, fn0, _ in own.values())))]
 
 
 def _drift_unit(u, rec):
@@ -347,7 +359,8 @@ def unit_apply(tier):
                     z3.And(t >= 0, t < T, a >= 0, a < N, c >= 0, c < 3), co.at(t, a, c) == D(t, a, c) - dr(t, c)))),
                 ('shape', z3.And(co.shape[0] == T, co.shape[1] == N, co.shape[2] == 3)),
                 ('displacement mode with the same base positions (first frame unchanged)', z3.BoolVal(b.get('coords_are_displacement') is True and b.get('base_positions') is tr.get('base_positions'))),
-                ('species, lattice, time step, metadata unchanged', z3.BoolVal(b.get('species') is tr.get('species') and b.get('lattice') is st['lat'] and b.get('time_step') is st['dt'] and b.get('metadata') is tr.get('metadata')))]
+                ('species, lattice, time step, metadata unchanged', z3.BoolVal(b.get('species') is tr.get('species') and b.get('lattice') is st['lat'] and b.get('time_step') is st['dt'] and b.get('metadata') is tr.get('metadata')))] \
+            + _receiver_unchanged(st)
     u.prove_function('gemdat.trajectory', 'Trajectory.apply_drift_correction', setup, post, raises=(),
                      replay={'fn': 'verif.props.c13:replay_drift', 'sizes': lambda st: [], 'concretise': lambda m, st, ob: {'seed': 3}})
     return u
